@@ -42,6 +42,7 @@ fn fam_json(f: &Family) -> Value {
         Family::OLeary => json!("OLeary"),
         Family::GenProd { m, p, inc } => json!({"m": m, "p": p, "inc": inc.iter().map(|r| r.to_vec()).collect::<Vec<_>>()}),
         Family::PolyMat(_) => json!("PolyMat"),
+        Family::ExpN(n) => json!(format!("ExpN{}", n)),
     }
 }
 fn fam_parse(v: &Value) -> Family {
@@ -616,8 +617,12 @@ fn cov_cases(thorough: bool) -> Vec<Case> {
         }
     }
     for fam in [Family::Exp1Off, Family::Exp2Off, Family::Exp3, Family::GaussDecayOff, Family::OLeary] {
-        for n in [fam.m() + fam.p() + 2, 24, 60] {
-            for w in [WKind::None, WKind::Ramp, WKind::InvSigma, WKind::Tiny, WKind::Huge, WKind::Spread] {
+        // sample counts around powers of two (block-wise / vectorised accumulations have their corner cases there)
+        for n in [fam.m() + fam.p() + 2, 24, 60, 64, 127, 128, 129, 256] {
+            if !thorough && n > 60 && !matches!(fam, Family::Exp1Off | Family::Exp2Off) {
+                continue;
+            }
+            for w in [WKind::None, WKind::Ramp, WKind::InvSigma, WKind::Tiny, WKind::Huge, WKind::Spread, WKind::ZeroAt(2), WKind::NegAt(1)] {
                 for nv in [0u64, 1, 2] {
                     for amp in [1.0, 1e-5, 1e5] {
                         for f32_ in [false, true] {
@@ -644,7 +649,7 @@ fn band_cases(thorough: bool) -> Vec<Case> {
             if !thorough && nu > 20 {
                 continue;
             }
-            for w in [WKind::None, WKind::InvSigma, WKind::Ramp] {
+            for w in [WKind::None, WKind::InvSigma, WKind::Ramp, WKind::ZeroAt(1), WKind::NegAt(2)] {
                 for f32_ in [false, true] {
                     for prov in [Prov::Hand, Prov::Built] {
                         if !thorough && (prov == Prov::Built) != (w == WKind::Ramp) {
